@@ -7,8 +7,9 @@ import PeliteModel.Model.CStrFmt
 namespace Pelite.Driver
 open Pelite.Proto
 
+/-- (the address as the code computes it: `self.base.wrapping_add(start as u32)`) -/
 def fmtFound (base : Nat) (f : Strings.Found) : String :=
-  s!"{f.start}:{f.len}:{Strings.address base f}:{if f.hasNul then 1 else 0}"
+  s!"{f.start}:{f.len}:{Strings.addressT base f}:{if f.hasNul then 1 else 0}"
 
 /-- the specification's rendering of a run: `address = base + offset of the run` in `u32`, computed
 here, not through the model's `Strings.address` -/
@@ -22,7 +23,9 @@ def strings (a : List String) : String :=
     let cfg : Strings.Config := ⟨num ml, num mln, st == "1"⟩
     let base := num base
     let bytes := unhex hx
-    let ans := match Strings.enumAll bytes cfg (bytes.size + 2) 0 with
+    -- the enumerator AS WRITTEN (`self.offset: u32`): `enumAllT`; for the buffers a line can carry it is `enumAll`
+    -- (C20_offset_fits)
+    let ans := match Strings.enumAllT bytes cfg (bytes.size + 2) 0 with
       | .ok fs =>
         -- the state after exhaustion is the offset the last `Some` left behind; `next` again twice
         let off := Strings.finalOff bytes cfg (bytes.size + 2) 0
@@ -54,7 +57,9 @@ def relocsAt (align16 : Nat) (data : Bytes) : String :=
     let folded := Relocs.fold hashStep 0 data
     let expect := flatFold.foldl (fun a p => hashStep a p.1 p.2) 0
     let b01 (b : Bool) : String := if b then "1" else "0"
-    let wf := decide (Relocs.WellFormed data)
+    -- the hypothesis of C14_blocks_partition_dir / C14_flat_eq_spec_dir, decided on the BYTES by the format-side
+    -- predicate (not on the blocks the model's iterator found)
+    let wf := Relocs.Spec.wellFormedDir data.toList
     s!"ok blocks=[{join (bs.map fmtBlock)}] flat=[{fmtPairs flatIt}] foreach_same={b01 (flatIt == flatFold)} fold_same={b01 (folded == expect)} ## hyp={b01 wf} spec=[{fmtPairs (Relocs.Spec.decodeDir data.toList)}]"
   | o => outStr (fun _ => "") o
 
@@ -116,13 +121,18 @@ def stringsHist (a : List String) : String :=
     let base := num base
     let bytes := unhex hx
     let ops := (parseHist hist).filterMap id
-    let ans := Strings.runOps bytes cfg 0 ops
+    -- the enumerator object AS WRITTEN (`self.offset: u32`): `runOpsW (nextT …)` (C18_strings_is_seq_u32)
+    let run (l : List Seq.Op) : Out (List (Seq.Res Strings.Found)) :=
+      Strings.runOpsW (Strings.nextT bytes cfg) (bytes.size + 2) 0 l
     let spec := Seq.runSeq Seq.Hint.unknown (Strings.specAll bytes cfg) ops
     let n := (Strings.itemsFrom bytes cfg 0).length
-    let tail := Strings.runOps bytes cfg 0 (ops ++ List.replicate (n + 1) .next ++ [.next, .next])
-    let fused := (tail.drop (ops.length + n + 1)) == [.item none, .item none]
     let hyp := decide (1 ≤ cfg.minLen ∧ 1 ≤ cfg.minLenNul)
-    s!"ok {join (ans.map (fmtSeqRes (fmtFound base))) ";"} fused={if fused then 1 else 0} ## spec={join (spec.map (fmtSeqRes (fmtFoundSpec base))) ";"} hyp={if hyp then 1 else 0}"
+    match run ops, run (ops ++ List.replicate (n + 1) .next ++ [.next, .next]) with
+    | .ok ans, .ok tail =>
+      let fused := (tail.drop (ops.length + n + 1)) == [.item none, .item none]
+      s!"ok {join (ans.map (fmtSeqRes (fmtFound base))) ";"} fused={if fused then 1 else 0} ## spec={join (spec.map (fmtSeqRes (fmtFoundSpec base))) ";"} hyp={if hyp then 1 else 0}"
+    | .ok _, o => outStr (fun _ => "") o
+    | o, _ => outStr (fun _ => "") o
   | _ => "bad-op"
 
 def parsePairs (s : String) : List (Nat × Nat) :=
